@@ -16,6 +16,8 @@ static std::vector<float> bunch_data(unsigned n, unsigned b, int variant) {
     return d;
 }
 
+static std::vector<float> all_data_of(const std::vector<std::vector<float>>& data, unsigned nb) { std::vector<float> all; for (unsigned b = 0; b < nb; b++) all.insert(all.end(), data[b].begin(), data[b].end()); return all; }
+
 enum Kind { KICKY, KICKX, RFLIN, RFSIN, DRIFT, FP3, FP4, IDENT, WAKE, NKIND };
 static const char* KN[] = {"KickMap.y", "KickMap.x", "RFKickMap.linear", "RFKickMap.sin", "DriftMap", "FokkerPlanck.3", "FokkerPlanck.4", "Identity", "WakePotentialMap"};
 
@@ -96,6 +98,21 @@ int main(int argc, char** argv) {
             multi.assign(B.out->getData(), B.out->getData() + (size_t)n * n * nb);
             if (kind == WAKE) {
                 auto* km = static_cast<KickMap*>(B.m.get());
+                // history: the profiles change a little from step to step (as in a run with many steps per period); after every update the
+                // kick applied must be the kick of the potential the map holds NOW - compared with a fresh generic map given that field
+                auto* wm = static_cast<WakePotentialMap*>(B.m.get());
+                for (int round = 0; round < 6; round++) {
+                    auto pr = B.in->getProjection(0);
+                    for (unsigned b = 0; b < nb; b++) { boost::multi_array<projection_t, 1> a(boost::extents[n]); for (unsigned x = 0; x < n; x++) a[x] = pr[b][x] * (1.f + 2e-6f * (round + 1)) + 1e-7f * ((x + round) % 3); B.in->setProjection(0, b, a); }
+                    wm->update(); wm->apply();
+                    auto in2 = mkps_shift(n, 12, var % 3 == 1 ? 2 : 0, var % 3 == 1 ? -1 : 0, even_filling(nb), all_data_of(data, nb).data()), out2 = mkps_shift(n, 12, var % 3 == 1 ? 2 : 0, var % 3 == 1 ? -1 : 0, even_filling(nb));
+                    KickMap fresh(in2, out2, (SourceMap::InterpolationType)it, false, KickMap::Axis::y, nullptr);
+                    std::vector<float> off(km->getForce(), km->getForce() + n * nb); fresh.swapOffset(off); fresh.apply();
+                    if (memcmp(out2->getData(), B.out->getData(), 4 * (size_t)n * n * nb) != 0) {
+                        R.violate("C08/WakePotentialMap/kick-applied-is-not-the-potential-held", kase, "after " + std::to_string(round + 1) + " small profile changes the applied kick differs from a fresh map built from getForce()"); break; }
+                }
+                wm->update(); wm->apply();
+                multi.assign(B.out->getData(), B.out->getData() + (size_t)n * n * nb);
                 wake_multi.assign(km->getForce(), km->getForce() + n * nb);
                 const auto& wp = B.f->getWakePotentials();
                 for (unsigned b = 0; b < nb; b++) for (unsigned x = 0; x < n; x++)
